@@ -14,4 +14,7 @@ VERIF = os.path.dirname(os.path.dirname(os.path.abspath(__file__)))
 if sys.path[0] != REPO:
     sys.path.insert(0, REPO)
 logging.disable(logging.CRITICAL)
+if os.environ.get("VERIF_LIBCOV"):
+    from . import libcov as _libcov
+    _libcov.install(os.environ["VERIF_LIBCOV"], REPO)
 sys.setrecursionlimit(10000)
